@@ -683,11 +683,14 @@ def obligations(tier):
                         out.append(Obl(name, window_codons_on_chunk(lens, strand, frames, expand, realised=True), params,
                                        (lambda k, span: (lambda **kw: 100 <= kw["s0"] and kw["s0"] <= 102 and 98 <= kw["w"] and kw["w"] <= 100 + span - 3
                                                          and 99 <= kw["ws"] and kw["ws"] <= 100 + span and 3 <= kw["wl"] and kw["wl"] <= 8
+                                                         and (k < 3 or (kw["s0"] == 100 and (kw["wl"] == 3 or kw["wl"] == 5 or kw["wl"] == 8)))
                                                          and all(1 <= kw["g%d" % i] and kw["g%d" % i] <= 2 for i in range(1, k))))(k, span),
-                                       budget=900, cost=60 * k, desc=desc,
-                                       bounds="exon lengths %s, consistent frames from start frame %d, first start 100..102, gaps 1..2, chunk start 98..%d (length %d), "
-                                              "window start 99..%d, window length 3..8 (realised)" % (lens, f0, 100 + span - 3, L, 100 + span),
-                                       examples=[ex, dict(ex, ws=104, wl=6), dict(ex, w=104, ws=101, wl=8)]))
+                                       budget=900 if k < 3 else 2400, cost=60 * k, desc=desc,
+                                       bounds="exon lengths %s, consistent frames from start frame %d, first start %s, gaps 1..2, chunk start 98..%d (length %d), "
+                                              "window start 99..%d, window length %s (realised)" % (lens, f0, "100..102" if k < 3 else "100", 100 + span - 3, L, 100 + span,
+                                                                                                   "3..8" if k < 3 else "3 / 5 / 8"),
+                                       examples=[ex, dict(ex, ws=104, wl=6), dict(ex, w=104, ws=101, wl=8)] if k < 3 else
+                                       [dict(ex, s0=100), dict(ex, s0=100, ws=104, wl=8), dict(ex, s0=100, w=104, ws=101, wl=8)]))
     from harness.c04 import chunk_parents_by_content_fn, parsers_importable
 
     if parsers_importable():
